@@ -198,6 +198,22 @@ func (m *Model) pruneEligible(x *Msg, now time.Time) bool {
 	return false
 }
 
+// deadBeyondDepth: x is a dead letter that a retention pass may remove under
+// the DLQ depth rule: at least max_depth other dead letters are as new or newer
+// (among equal received_at the choice is the implementation's).
+func (m *Model) deadBeyondDepth(x *Msg) bool {
+	if x.State != queue.StateDead || !m.Cfg.pruneConfigured() || m.Cfg.DLQMaxDepth <= 0 {
+		return false
+	}
+	newer := 0
+	for _, o := range m.Msgs {
+		if o != x && o.State == queue.StateDead && !o.ReceivedAt.Before(x.ReceivedAt) {
+			newer++
+		}
+	}
+	return newer >= m.Cfg.DLQMaxDepth
+}
+
 // pruneEligibleIfSwept: an expired lease that a dequeue releases becomes a
 // queued message, which retention may then remove within the same call.
 func (m *Model) pruneEligibleIfSwept(x *Msg, now time.Time) bool {
@@ -529,7 +545,7 @@ func (m *Model) Enqueue(now time.Time, envs []queue.Envelope, batch bool, n int,
 			if old, ok := m.Msgs[e.ID]; ok {
 				// Legal only if the holder of the id was itself the drop_oldest
 				// victim that made room (evicted first, then the id is free).
-				if m.pruneEligible(old, now) {
+				if m.pruneEligible(old, now) || m.deadBeyondDepth(old) {
 					// retention removed the holder before the insert
 					delete(m.Msgs, old.ID)
 					m.Gone[old.ID] = "pruned"
